@@ -26,11 +26,26 @@
        entry by fixpoint iteration and lists what it cannot justify.
 
    Proofs: Proofs/ProgressP.v. *)
-From Coq Require Import List Arith String Bool FMapAVL OrderedTypeEx.
+From Coq Require Import List Arith String Ascii Bool PArith FMapPositive.
 Import ListNotations.
 Open Scope list_scope.
 
-Module SM := FMapAVL.Make(String_as_OT).
+(* finite maps keyed by strings, for the fixpoint computations only (no theorem depends on their behaviour: the
+   theorems hold for ANY nu / rk that pass the checks): a string is turned into a positive, 8 bits per character *)
+Module SM.
+  Definition bit (b : bool) (p : positive) : positive := if b then xI p else xO p.
+  Fixpoint key (s : string) : positive :=
+    match s with
+    | EmptyString => xH
+    | String (Ascii b0 b1 b2 b3 b4 b5 b6 b7) s' =>
+        bit b0 (bit b1 (bit b2 (bit b3 (bit b4 (bit b5 (bit b6 (bit b7 (key s'))))))))
+    end.
+  Definition t (A : Type) : Type := PositiveMap.t A.
+  Definition empty (A : Type) : t A := PositiveMap.empty A.
+  Definition add {A} (k : string) (v : A) (m : t A) : t A := PositiveMap.add (key k) v m.
+  Definition find {A} (k : string) (m : t A) : option A := PositiveMap.find (key k) m.
+  Definition mem {A} (k : string) (m : t A) : bool := PositiveMap.mem (key k) m.
+End SM.
 
 (* ====================================================================== *)
 (* (1) syntax                                                              *)
@@ -153,8 +168,9 @@ Fixpoint ab_scan (i : input) (fl : list bool) (rs : list res) (bs bf be : option
       end
   end.
 
-(* gd = true: nom's guards as they are; gd = false: the same parser with nom's guards removed *)
-Fixpoint evalp (O : oracle) (G : grammar_t) (gd : bool) (n : nat) (p : pexp) (i : input) {struct n} : option res :=
+(* gd site = true: nom's guard at that repetition as it is; false: the same parser with that guard removed *)
+Definition all_on : string -> bool := fun _ => true.
+Fixpoint evalp (O : oracle) (G : grammar_t) (gd : string -> bool) (n : nat) (p : pexp) (i : input) {struct n} : option res :=
   match n with
   | 0 => None
   | S n' =>
@@ -174,7 +190,7 @@ Fixpoint evalp (O : oracle) (G : grammar_t) (gd : bool) (n : nat) (p : pexp) (i 
       | PBlock s => evals O G gd n' s i (fun _ => ROk i)
       end
   end
-with evals (O : oracle) (G : grammar_t) (gd : bool) (n : nat) (s : stmt) (e0 : input) (r : env) {struct n} : option res :=
+with evals (O : oracle) (G : grammar_t) (gd : string -> bool) (n : nat) (s : stmt) (e0 : input) (r : env) {struct n} : option res :=
   match n with
   | 0 => None
   | S n' =>
@@ -190,7 +206,7 @@ with evals (O : oracle) (G : grammar_t) (gd : bool) (n : nat) (s : stmt) (e0 : i
           end
       | SIf site a b => if o_cond O site n' e0 then evals O G gd n' a e0 r else evals O G gd n' b e0 r
       | SGuard nom site y a k =>
-          if nom && negb gd then evals O G gd n' k e0 r
+          if nom && negb (gd site) then evals O G gd n' k e0 r
           else if List.length (pos (r y)) =? List.length e0 then evals O G gd n' a e0 r
           else evals O G gd n' k e0 r
       | SUnknown site => Some (o_unk O site n' e0)
